@@ -153,6 +153,7 @@ func genC07(t *rapid.T) *Scenario {
 		sc.StdErr = rapid.IntRange(0, 4).Draw(t, "stderr") == 0
 		genPrefill(t, sc)
 		sc.Script = genScript(t, 1, nPortsOf(sc.Stage, sc.Mode, sc.StdErr), false, false, 40)
+		sc.Twin = rapid.IntRange(0, 5).Draw(t, "twin") == 0
 	case "emit":
 		sc.Caps = []int{rapid.IntRange(0, 3).Draw(t, "cap")}
 		sc.Freq = rapid.SampledFrom([]int{1, 1, 3}).Draw(t, "freq")
@@ -188,6 +189,7 @@ func genC12(t *rapid.T) *Scenario {
 		sc.In[k-1] = nil
 	}
 	sc.Script = genScript(t, k, 1, false, false, 40+4*k)
+	sc.Twin = k > 0 && rapid.IntRange(0, 4).Draw(t, "twin") == 0
 	return sc
 }
 
@@ -359,6 +361,7 @@ func genC08(t *rapid.T) *Scenario {
 	}
 	sc.PreCancel = rapid.IntRange(0, 19).Draw(t, "precancel") == 0
 	sc.Gated = rapid.IntRange(0, 3).Draw(t, "warm") == 0 // a pipe of another element type ran before (shared state between instantiations)
+	sc.Twin = rapid.IntRange(0, 4).Draw(t, "twin") == 0 // a second pipe of the same element type is alive alongside
 	// how the stream ends: by class
 	switch rapid.SampledFrom([]string{"harness", "harness", "cancel-with-backlog", "racing-sends", "racing-sends", "parked-senders", "parked-senders", "close-with-backlog"}).Draw(t, "endclass") {
 	case "parked-senders":
@@ -621,5 +624,6 @@ func genC10(t *rapid.T) *Scenario {
 		sc.Gated = rapid.Bool().Draw(t, "gatedLong") // ungated: the workers race each other for the buffered values
 	}
 	sc.PreCancel = rapid.IntRange(0, 15).Draw(t, "precancel") == 0
+	sc.Twin = !long && rapid.IntRange(0, 5).Draw(t, "twin") == 0
 	return sc
 }
